@@ -51,7 +51,8 @@ impl TilesReaderTrait for HoleReader {
 
 fn payload_is(b: &Blob, c: &TileCoord3) -> bool {
 	let s = b.as_slice();
-	s.len() == 9 && s[0..4] == c.x.to_be_bytes() && s[4..8] == c.y.to_be_bytes() && s[8] == c.z
+	let (x, y) = (c.x.to_be_bytes(), c.y.to_be_bytes());
+	s.len() == 9 && s[0] == x[0] && s[1] == x[1] && s[2] == x[2] && s[3] == x[3] && s[4] == y[0] && s[5] == y[1] && s[6] == y[2] && s[7] == y[3] && s[8] == c.z
 }
 
 fn default_stream<const WX: u32, const WY: u32>() {
@@ -63,33 +64,35 @@ fn default_stream<const WX: u32, const WY: u32>() {
 	let q = any_bbox_at(level);
 	kani::assume(q.width() <= WX && q.height() <= WY);
 	let items = block_on(block_on(reader.get_bbox_tile_stream(q.clone())).collect());
+	// one pass over the stream: every item lies in the box, is what the lookup returns, and is seen once
+	let mut seen = [false; 4];
+	assert!(items.len() <= (WX * WY) as usize, "stream delivers more tiles than the box has");
 	let mut i = 0;
 	while i < items.len() {
 		let (c, blob) = &items[i];
 		assert!(c.z == level && inb(&q, &TileCoord2::new(c.x, c.y)), "stream delivers a tile outside the requested box");
 		assert!(reader.has(c), "stream delivers a tile the lookup does not return");
 		assert!(payload_is(blob, c), "stream delivers other bytes than the lookup");
-		let mut j = i + 1;
-		while j < items.len() {
-			assert!(!(items[j].0 == *c), "stream delivers a tile twice");
-			j += 1;
-		}
+		let idx = ((c.y - q.y_min) * WX + (c.x - q.x_min)) as usize;
+		assert!(!seen[idx], "stream delivers a tile twice");
+		seen[idx] = true;
 		i += 1;
 	}
-	let c = TileCoord3 { x: kani::any(), y: kani::any(), z: level };
-	if inb(&q, &TileCoord2::new(c.x, c.y)) && reader.has(&c) {
-		let mut found = false;
-		let mut k = 0;
-		while k < items.len() {
-			if items[k].0 == c {
-				found = true;
+	// and nothing is missing
+	let mut dy = 0;
+	while dy < WY {
+		let mut dx = 0;
+		while dx < WX {
+			let inside = !q.is_empty() && dx < q.width() && dy < q.height();
+			if inside {
+				let c = TileCoord3 { x: q.x_min + dx, y: q.y_min + dy, z: level };
+				assert!(seen[(dy * WX + dx) as usize] == reader.has(&c), "stream misses a tile the lookup returns");
+			} else {
+				assert!(!seen[(dy * WX + dx) as usize]);
 			}
-			k += 1;
+			dx += 1;
 		}
-		assert!(found, "stream misses a tile the lookup returns");
-	}
-	if q.is_empty() {
-		assert!(items.is_empty(), "an empty box yields tiles");
+		dy += 1;
 	}
 	kani::cover!(items.len() as u32 == WX * WY);
 	kani::cover!(items.len() as u32 + 1 == WX * WY && !q.is_empty(), "the hole is inside the box");
@@ -160,7 +163,7 @@ fn include_fold<const Z0: u8, const Z1: u8, const Z2: u8>() {
 	// a level without tiles stays empty
 	let other: u8 = if Z0 != 7 && Z1 != 7 && Z2 != 7 { 7 } else { 8 };
 	assert!(pyr.get_level_bbox(other).is_empty(), "a level without tiles has a non-empty box");
-	kani::cover!(cs[0].x < cs[1].x && cs[2].y < cs[0].y);
+	kani::cover!(cs[2].x > 0 && cs[2].y > 0);
 }
 
 macro_rules! fold {
